@@ -117,7 +117,8 @@ class Rewriter:
             return ["  " + raw]
         base = (mm.group(1) or "").lstrip("%")
         idx = (mm.group(2) or "").lstrip("%")
-        if base in ("rsp", "rbp", "esp", "ebp") or idx in ("rsp",):
+        shared_frame = "own_" in self.func  # owner functions publish the address of a local: their frame is not private
+        if base in ("rsp", "esp") or idx in ("rsp",) or (base in ("rbp", "ebp") and not shared_frame and not locked):
             return ["  " + raw]  # the thread's own frame
         mem = ops[memidx]
         is_dest = memidx == len(ops) - 1 and not (mn.startswith("cmp") and not mn.startswith("cmpxchg")) \
